@@ -126,6 +126,63 @@ example : ∃ s' t' k, (c01StateAfter c01ExOps).step (.deliver .B 3) = .ok (s', 
   rw [h3, h1, h2]
   rfl
 
+/-! ## retransmission and acknowledgment progress (TCB level) -/
+
+/-- **retransmission progress.**  Whatever the state of the TCB: once the retransmission timer has
+    expired (`dt` exceeds what is left of it) the next `segments()` returns every segment that is on
+    the retransmission queue — unacknowledged data is offered to the network again after each RTO. -/
+theorem c01_progress_retransmit_partial (t t1 t2 : Tcb) (dt : Nat) (r : AdvanceTimeResult) (out : List Segment)
+    (hdt : dt > t.timeouts.retransmission) (e1 : t.advanceTime dt = .ok (t1, r))
+    (e2 : t1.segments = .ok (t2, out)) :
+    ∀ tr ∈ t.outgoing.retransmit, tr.segment ∈ out :=
+  retransmit_all hdt e1 e2
+
+/-- **acknowledgment progress.**  At an ESTABLISHED endpoint with an empty reorder heap, a pure ACK
+    at `RCV.NXT` with `SND.UNA < SEG.ACK ≤ SND.NXT` (circular) is accepted, sets `SND.UNA = SEG.ACK`
+    and removes from the retransmission queue exactly the segments with `SEG.SEQ + SEG.LEN ≤ SEG.ACK`
+    (`remove_acked` keeps `mod_lt(SEG.ACK, seq + len)`); receive side, unsent text, `SND.NXT`, the
+    one-shot queue and the state are untouched. -/
+theorem c01_progress_ack_partial (t : Tcb) (g : Segment)
+    (hst : t.state = .Established) (hw : t.rcv.wnd = 65535#16) (hheap : t.incoming.segments = [])
+    (htext : g.text = []) (hrst : g.hdr.ctl.rst = false) (hsyn : g.hdr.ctl.syn = false)
+    (hfin : g.hdr.ctl.fin = false) (hack : g.hdr.ctl.ack = true) (hseq : g.hdr.seq = t.rcv.nxt)
+    (hnew : modLeq g.hdr.ack t.snd.una = false)
+    (hok : modBounded t.snd.una .Lt g.hdr.ack .Leq t.snd.nxt = true) :
+    ∃ t', t.segmentArrives g = .ok (t', .Ok) ∧ t'.snd.una = g.hdr.ack ∧
+      t'.outgoing.retransmit = t.outgoing.retransmit.filter
+        (fun tr => modLt g.hdr.ack (tr.segment.hdr.seq + BitVec.ofNat 32 tr.segment.segLen)) ∧
+      t'.snd.nxt = t.snd.nxt ∧ t'.snd.iss = t.snd.iss ∧ t'.rcv = t.rcv ∧ t'.incoming = t.incoming ∧
+      t'.state = .Established ∧ t'.outgoing.text = t.outgoing.text ∧ t'.outgoing.oneshot = t.outgoing.oneshot :=
+  segmentArrives_ack hst hw hheap htext hrst hsyn hfin hack hseq hnew hok
+
+/-- A's TCB after the example run: the 3-byte data segment waits on its retransmission queue -/
+def c01ExTcbA : Tcb := ((c01StateAfter c01ExOps).side .A).tcb.getD default
+
+/-- non-vacuity (retransmission): the timer (100 ms) has expired after 101 ms, both calls succeed, one
+    segment is queued, and A's `segments()` re-emits the data segment -/
+example : (match c01ExTcbA.advanceTime 101 with
+    | .ok (t1, _) => (match t1.segments with
+      | .ok (_, out) => out.map (·.text) == [[1, 2, 3]]
+      | .error _ => false)
+    | .error _ => false) = true ∧
+    101 > c01ExTcbA.timeouts.retransmission ∧ c01ExTcbA.outgoing.retransmit.length = 1 := by decide
+
+/-- B's data is acknowledged: the run continues with the data segment reaching B and B's ACK
+    (history element 4) being emitted -/
+def c01ExOps2 : List Op := c01ExOps ++ [.deliver .B 3, .emit .B]
+def c01ExTcbA2 : Tcb := ((c01StateAfter c01ExOps2).side .A).tcb.getD default
+def c01ExAck : Segment := ((c01StateAfter c01ExOps2).nth 4).getD default
+
+/-- non-vacuity (acknowledgment): the hypotheses hold for A and B's ACK in that reachable state; the
+    theorem yields that A's retransmission queue is empty afterwards -/
+example : ∃ t', c01ExTcbA2.segmentArrives c01ExAck = .ok (t', .Ok) ∧ t'.outgoing.retransmit = [] ∧
+    t'.snd.una = t'.snd.nxt := by
+  obtain ⟨t', e, u, r, n, _⟩ := c01_progress_ack_partial c01ExTcbA2 c01ExAck (by decide) (by decide) (by decide)
+    (by decide) (by decide) (by decide) (by decide) (by decide) (by decide) (by decide) (by decide)
+  refine ⟨t', e, ?_, ?_⟩
+  · rw [r]; decide
+  · rw [u, n]; decide
+
 /-- The convergence clause, as a statement (NOT proved; checked by the native oracle of the `sched`
     run on the real code).  `fairRound` = each side ticks past the retransmission timeout and emits,
     everything emitted is delivered to its addressee in emission order (responses included) until
